@@ -46,6 +46,8 @@ pub trait Adapter {
     /// field draws the committer / the prover take beyond the generic estimate (schemes that always blind)
     fn extra_commit_draws(_c: &Case) -> usize { 0 }
     fn open_draws(_c: &Case, _npolys: usize) -> usize { 0 }
+    /// challenges the scheme derives by hashing (outside the caller's sponge) since the last call, in order (verif hook)
+    fn take_hash_log() -> Vec<String> { vec![] }
     fn size_shape_comm(_cm: &Cm<Self>) -> Vec<String> { vec![] }
     fn size_shape_proof(_pf: &Pf<Self>) -> Vec<String> { vec![] }
     /// scheme-specific commitment mutation (e.g. dropping the shifted part)
@@ -307,8 +309,10 @@ where
                 let sel: Vec<usize> = op[2..].iter().map(|x| x.parse().unwrap()).collect();
                 let values: Vec<A::F> = sel.iter().map(|i| polys[*i].evaluate(&pts[pj])).collect();
                 out.obs(&format!("evals.{}", t), "F", &fs_to_strs(&values));
+                let _ = A::take_hash_log();
                 let r = guard_any(|| A::PC::open(&ck, sel.iter().map(|i| &polys[*i]), sel.iter().map(|i| &comms[*i]),
                     &pts[pj], &mut ps, sel.iter().map(|i| &states[*i]), Some(&mut orng)));
+                { let hl = A::take_hash_log(); if !hl.is_empty() { out.input(&format!("hchal.{}", t), &hl); } }
                 out.obs1(&format!("open.{}", t), "S", r.class());
                 if let Some(cum) = &open_cum { out.obs1(&format!("open_draws.{}", t), "N", draws_of(cum, orng.bytes).to_string()); }
                 rec.sel = sel.clone(); rec.pt = pj; rec.values = values.clone();
@@ -319,6 +323,7 @@ where
                     out.obs1(&format!("proof_size.{}", t), "N", b.len().to_string());
                     A::proof_obs(&format!("pf.{}", t), &pf, out);
                     let d = guard_any(|| A::PC::check(&vk, sel.iter().map(|i| &comms[*i]), &pts[pj], values.clone(), &pf, &mut vs, Some(&mut vrng)));
+                    { let hl = A::take_hash_log(); if !hl.is_empty() { out.input(&format!("vhchal.{}", t), &hl); } }
                     out.obs1(&format!("check.{}", t), "S", decision(&d));
                     rec.proof = Some(pf);
                 }
@@ -456,7 +461,9 @@ where
                     _ => skipped = true,
                 }
                 if skipped { out.obs1(&name, "S", "skipped".into()); continue; }
+                let _ = A::take_hash_log();
                 let d = guard_any(|| A::PC::check(&vk, sel.iter().map(|i| &cms[*i]), &pts[pj], values.clone(), &pf, &mut vs2, Some(&mut vrng)));
+                { let hl = A::take_hash_log(); if !hl.is_empty() { out.input(&format!("mhchal.{}", m), &hl); } }
                 out.obs1(&name, "S", decision(&d));
                 out.input(&format!("mchal.{}", m), &vs2.challenges(vs2_start));
             }
